@@ -70,7 +70,7 @@ def run(chk):
                        '2.1 SDO, plain dictionary) all states reachable by <= 2 adds x 11 selectors (incl. string-prefix siblings created / created_by_ref, list indices, properties holding "" and false, '
                        'embedded-object properties) x 3 markings (2 marking refs + 1 language) x inherited/descendants flags: the laws of the statement against a set model; '
                        'multi-selector adds with partial overlap; commutativity; results are new versions with non-marking content unchanged.')
-    for c in (K.object_add_contract(), K.object_remove_contract(), K.object_is_marked_contract(), K.object_clear_contract(), K.validate_contract()):
+    for c in (K.object_add_contract(), K.object_remove_contract(), K.object_is_marked_contract(), K.object_clear_contract(), K.validate_contract(), K.validate_selector_contract(), K.evaluate_expression_contract()):
         chk.prove(c); chk.canary(c)
 
     bs = bases()
